@@ -155,6 +155,15 @@ func (vc *VC) modLocs(fi *FuncInfo, items []*ModItem, args []SV, st *State) []Lo
 			continue
 		}
 		if m.All2 {
+			if st2, ok := t.Underlying().(*types.Slice); ok {
+				// a slice of slices: the contents of any array of the inner element type
+				if in, ok := st2.Elem().Underlying().(*types.Slice); ok {
+					tk := typeKey(in.Elem())
+					vc.eng.tkTypes[tk] = in.Elem()
+					out = append(out, Loc{Space: 'E', TK: tk, Ref: "*", Desc: m.Expr + "[*][*]"})
+					continue
+				}
+			}
 			mt, ok := t.Underlying().(*types.Map)
 			if !ok {
 				vc.fail("modifies %s[*][*]: not a map of maps", m.Expr)
